@@ -34,6 +34,8 @@ RULE = ('small codes: one case per Pauli operator (all 4^n; in quick a '
         'non-trivial = vector != 0')
 ASSUMPTIONS = ['supported size family = pv/families.py']
 REQUIRED_COUNTERS = ['vectors_given_as_2d_or_sparse', 'batches_classified',
+                     'failure_rate_helper_calls',
+                     'objects_judged_after_a_splitting_run',
                      'sparse_vectors_with_stored_zeros',
                      'vectors_classified', 'history_steps',
                      'objects_touched_before_judging', 'in_group', 'logical_nontrivial',
@@ -493,6 +495,110 @@ def run_run_once(task, out):
                                   'effective_error != reference effect',
                                   dict(desc, mode=mode))
             out.case(desc, True, n=reps)
+            # the helper that turns trials into a failure rate (also used by
+            # the splitting method): scripted residuals of every class --
+            # stabilizer, logical, outside the code space with and without a
+            # logical effect -- the rate must be the share outside the group
+            from panqec.simulation._direct_simulation import \
+                calculate_logical_error_rate
+            seq_e, seq_c, fails = [], [], 0
+            nseq = 40
+            for t in range(nseq):
+                e = int.from_bytes(rng.bytes((2 * n + 7) // 8), 'little') \
+                    & ((1 << (2 * n)) - 1)
+                resid = 0
+                for h in orc.H:
+                    if rng.random() < 0.3:
+                        resid ^= h
+                mode = t % 4
+                if mode in (1, 3):
+                    i = int(rng.integers(0, k))
+                    resid ^= (orc.Lx[i] if rng.random() < 0.5 else orc.Lz[i])
+                if mode in (2, 3):
+                    # leave the code space without touching the logical
+                    # effect: a single-qubit error times what cancels its
+                    # logical action is simply a detectable error
+                    resid ^= 1 << int(rng.integers(0, 2 * n))
+                fails += not orc.in_group(resid)
+                seq_e.append(gf2.unpack(e, 2 * n))
+                seq_c.append(gf2.unpack(e ^ resid, 2 * n).astype(np.uint))
+            sem, sdec = _SeqModel(seq_e), _SeqDecoder(seq_c)
+            got = calculate_logical_error_rate(code, sem, sdec, 0.1, nseq)
+            out.count('failure_rate_helper_calls')
+            if abs(float(got) - fails / nseq) > 1e-12:
+                out.violation('calculate_logical_error_rate/not-the-share-'
+                              'outside-the-stabilizer-group',
+                              f'returned {got} for {nseq} scripted trials of '
+                              f'which {fails} leave a residual outside the '
+                              'stabilizer group', desc)
+            # the same code object after a splitting-method run on it
+            try:
+                check_after_splitting(code, cls, size, dname, kw, out, rng)
+            except Exception as e:
+                from pv.common import panqec_frame
+                where = panqec_frame(e)
+                if where is None:
+                    raise
+                out.violation(f'{cls}/after-splitting-run/raises-'
+                              f'{type(e).__name__}',
+                              f'{type(e).__name__}: {e} at {where}', desc)
+
+
+class _SeqModel:
+    def __init__(self, seq):
+        self.seq, self.i = seq, 0
+
+    def generate(self, code, error_rate, rng=None):
+        self.i += 1
+        return self.seq[self.i - 1].copy()
+
+
+class _SeqDecoder:
+    def __init__(self, seq):
+        self.seq, self.i = seq, 0
+
+    def decode(self, syndrome, **kw):
+        self.i += 1
+        return self.seq[self.i - 1].copy()
+
+
+def check_after_splitting(code, cls, size, dname, kw, out, rng):
+    """Other components use the code object between verdicts: a splitting
+    simulation is built on it and run, then the verdicts on that SAME object
+    are judged against an oracle from a fresh one."""
+    import contextlib
+    import io
+    from panqec.error_models import PauliErrorModel
+    from panqec.decoders import BeliefPropagationOSDDecoder
+    from panqec.simulation import SplittingSimulation
+    em = PauliErrorModel(0.4, 0.2, 0.4)
+    rates = [0.3, 0.2]
+    with contextlib.redirect_stdout(io.StringIO()):
+        decs = [BeliefPropagationOSDDecoder(code, em, r) for r in rates]
+        sim = SplittingSimulation(code, em, decs, rates, n_init_runs=5)
+        try:
+            sim.run(30)
+        except (ValueError, NotImplementedError):
+            return      # no failing initial error for this decoder: not run
+    out.count('objects_judged_after_a_splitting_run')
+    orc = Oracle(fam.build(cls, size, dname, kw))
+    n = orc.n
+    desc = {'cls': cls, 'size': list(size), 'deformation': dname,
+            'after': 'SplittingSimulation.run(30) on the same object'}
+    mech = cls + (f'/{dname}' if dname else '') + '/after-splitting-run'
+    probes = list(orc.H[:6]) + list(orc.Lx) + list(orc.Lz) + [0]
+    for _ in range(30):
+        v = 0
+        for h in orc.H:
+            if rng.random() < 0.3:
+                v ^= h
+        if rng.random() < 0.5:
+            v ^= orc.Lx[int(rng.integers(0, orc.k))]
+        if rng.random() < 0.3:
+            v ^= 1 << int(rng.integers(0, 2 * n))
+        probes.append(v)
+    for e_int in probes:
+        judge(code, orc, e_int, desc, out, mech)
 
 
 def run_task(task, out):
